@@ -197,6 +197,27 @@ def stub_fidelity(n_scenarios):
     return done
 
 
+def regression_seeds():
+    """replays/keep-<property>-<commit>.json were produced by reverting each fix: commit in a scratch worktree and letting the
+    check find and minimise the violation again (tools/make_regressions.sh). On the current tree each must replay clean."""
+    import importlib
+    from sim import runner
+    n = 0
+    for path in sorted(glob.glob(os.path.join(VERIF, 'replays', 'keep-*.json'))):
+        with open(path) as f:
+            doc = json.load(f)
+        chk = importlib.import_module('checks.' + doc['property'].lower())
+        chk.setup()
+        res = runner.exec_in_child(chk.execute, doc['scenario'])
+        if 'harness_error' in res:
+            raise RuntimeError(f'regression seed {os.path.basename(path)}: {res["harness_error"][-500:]}')
+        unknown, _ = runner.classify(chk, res)
+        if unknown:
+            raise RuntimeError(f'regression seed {os.path.basename(path)}: violation {unknown[0]["cls"]} is back: {unknown[0]["detail"][:300]}')
+        n += 1
+    return n
+
+
 def _exec_lenient(sc):
     from checks import c05
     from worlds import lis_phys
@@ -231,6 +252,8 @@ def main(argv=None):
               f'(16 vs 3 worker processes, PYTHONHASHSEED 0 vs 12345, fresh interpreters)')
         r = replay_selftest()
         print(f'selftest: minimise + replay ok {json.dumps(r)}')
+        n = regression_seeds()
+        print(f'selftest: {n} regression seeds (replays of the repaired defects) replay clean')
         n = stub_fidelity(3 if quick else 40)
         print(f'selftest: stub fidelity ok: SimPool == real multiprocessing.Pool (results and output trees) on {n} scenarios')
     except Exception as err:
